@@ -160,7 +160,7 @@ def _knobs(plan, dims):
     if "set_order" in dims:
         k["set_key"] = k2["set_key"]
     if "clock_pid" in dims:
-        k["clock"], k["pid"] = k2["clock"], k2["pid"]
+        k["clock"], k["pid"], k["host"] = k2["clock"], k2["pid"], k2.get("host")
     if "environ" in dims:
         k["environ"] = k2["environ"]
     if "buffers" in dims:
